@@ -65,7 +65,7 @@ def run(ctx):
                 skind = ['int', 'generator'][(rep + sp + len(n) + m + cap) % 2]      # (no seed at all would make the verdict depend on unseeded draws)
                 I, idx, idxm = teneva.sample_tt(n, m, seed=seed if skind == 'int' else np.random.default_rng(seed) if skind == 'generator' else None)
                 y = teneva.get_many(T, I)
-                e_abs = 1e-10 * min(1., 2.0 ** sp)        # the accuracy is absolute: it follows the data downwards
+                e_abs = 1e-10 * min(1., 2.0 ** (sp + 20))   # the accuracy is absolute: the default 1e-10 serves data down to 1e-6, below that it follows the data
                 what = 'svd_incomplete(n=%s, target ranks %s, m=%d, cap=%d, scale 2^%d, %s seed %d)' % (n, rho, m, cap, sp, skind, seed)
                 try:
                     Z = teneva.svd_incomplete(I, y, idx, idxm, e_abs, cap)
